@@ -17,6 +17,7 @@ value, SQRT of a negative one, x/|x| at 0, a comparison or an order statistic wi
 complex / overflowing powers, 0^0, aggregates of nothing ...) the case is counted as
 undefined and is not executed.
 """
+import itertools
 import math
 
 from mc import alpha
@@ -51,6 +52,10 @@ ASSUMPTIONS = [
     "for the reversed scalar comparisons (2<a, 2>a) the direct check accepts either of SCALAR_REV_BELOW / SCALAR_REV_ABOVE, "
     "because the docstring formulas of these two objects contradict their names",
     "feature values are read back from the track before each case and used as the leaves' values",
+    "order-free aggregates (SUM AVG VAR STD MSE RMSE MAD MIN MAX MEDIAN) over every vector of 2..4 values from {1, -2, 4, NaN}: "
+    "the documented value is a function of the values, so the same values rotated must give the same result (NaN equals NaN, "
+    "1e-9 relative for the summation order) through the evaluator and through the operator object -- also where the reference "
+    "leaves the value itself undefined (a NaN among the values); with a NaN an exception counts as a result like another",
 ]
 N_VARIANTS = 4
 NAN = float("nan")
@@ -119,7 +124,9 @@ _OB_ALL.update({
     "depth/0": "a defined leaf expression", "depth/1": "a defined depth-1 tree", "depth/2": "a defined depth-2 tree",
     "depth/3": "a defined depth-3 tree",
 })
-OBLIGATIONS = {"all": dict(_OB_ALL, **{"depth/4": "a defined depth-3 bracketing carrying one more unary operator"}), "quick": {}, "thorough": {}}
+OBLIGATIONS = {"all": dict(_OB_ALL, **{"depth/4": "a defined depth-3 bracketing carrying one more unary operator",
+                                       "rot/nan-first": "an order-free aggregate over values whose first one is NaN, compared with its rotations"}),
+               "quick": {}, "thorough": {}}
 
 
 # ---------------------------------------------------------------------------
@@ -1010,6 +1017,82 @@ def check_direct(variant, n, spec, ctx, bench=None):
     ctx.outcome(("direct", names[0], repr(exp)))
 
 
+# ---------------------------------------------------------------------------
+# order-free aggregates: the documented value (sum, mean, max, median ... of x) is a function of the values x takes,
+# not of the order in which the observations carry them -- also where the reference evaluator leaves the value
+# undefined (a NaN among the values).  Differential oracle: the same values, rotated.
+# ---------------------------------------------------------------------------
+ROT_AGG = ["SUM", "AVG", "VAR", "STD", "MSE", "RMSE", "MAD", "MIN", "MAX", "MEDIAN"]
+
+
+def rot_values(variant):
+    return [alpha.const(variant, v) for v in (1.0, -2.0, 4.0)] + [NAN]
+
+
+def _rot_track(variant, vec):
+    t = Track()
+    t0 = alpha.t0(variant)
+    for i in range(len(vec)):
+        x, y = alpha.xy(variant, i + 1.0, 2.0 * i)
+        t.addObs(Obs(ENUCoords(x, y, 5.0 - i), alpha.obstime(t0 + 3 * i)))
+    t.createAnalyticalFeature("a", list(vec))
+    return t
+
+
+def _same_num(u, v):
+    try:
+        return (u != u and v != v) or u == v
+    except Exception:
+        return False
+
+
+def check_rotation(variant, fn, vec, ctx):
+    """fn{a} through the evaluator and through the operator object, on vec and on every rotation of vec."""
+    vec = [float(v) for v in vec]
+    n = len(vec)
+    case = {"kind": "rot", "variant": variant, "fn": fn, "vec": list(vec)}
+    has_nan = any(v != v for v in vec)
+    ctx.case(has_nan and any(v == v for v in vec))
+    results = []
+    for r in range(n):
+        w = vec[r:] + vec[:r]
+        if w[0] != w[0] and any(v == v for v in w):
+            ctx.oblige("rot/nan-first")
+        for path in ("expr", "object"):
+            t = _rot_track(variant, w)
+            if path == "expr":
+                st, got = guard(t.operate, "%s{a}" % fn)
+                val = got[0] if st == "ok" and isinstance(got, list) and len(got) == n else None
+                if st == "ok" and (val is None or not all(_same_num(g, got[0]) for g in got)):
+                    ctx.violation("rot/%s/not-one-value-broadcast-to-every-observation" % fn, case, {"rotation": w, "got": got})
+                    return
+            else:
+                st, got = guard(t.operate, getattr(Operator, OBJ_UN[fn]), "a")
+                val = got
+            if st != "ok":
+                if not has_nan:
+                    ctx.violation("rot/%s/%s" % (fn, "does-not-return" if st == "hang" else "raises"), case, {"rotation": w, "got": got})
+                    return
+                val = ("raises", str(got).split(":")[0])      # with a NaN an exception is an answer like another, but the same one
+            else:
+                val = _num(val)
+                if val is None:
+                    ctx.violation("rot/%s/not-a-number" % fn, case, {"rotation": w, "got": repr(got)[:80]})
+                    return
+            results.append((w, path, val))
+    ref = results[0][2]
+    for w, path, val in results[1:]:
+        ok = (isinstance(val, tuple) and val == ref) or \
+             (not isinstance(val, tuple) and not isinstance(ref, tuple) and (_same_num(val, ref) or close(val, ref)))
+        if not ok:
+            ctx.violation("rot/%s/%s/value-depends-on-the-order-of-the-observations"
+                          % (fn, "values-with-nan" if has_nan else "values-without-nan"), case,
+                          {"first": {"values": results[0][0], "path": results[0][1], "result": ref},
+                           "other": {"values": w, "path": path, "result": val}})
+            return
+    ctx.outcome(("rot", fn, n, has_nan, repr(ref)))
+
+
 def defined_size(bench, variant, tree):
     for n in reversed(SIZES):
         try:
@@ -1021,6 +1104,8 @@ def defined_size(bench, variant, tree):
 
 
 def replay(case, ctx):
+    if case.get("kind") == "rot":
+        return check_rotation(case["variant"], case["fn"], case["vec"], ctx)
     if case["kind"] == "setup":
         st, err = guard(Bench().get, case["variant"], case["N"])
         if st != "ok":
@@ -1133,6 +1218,8 @@ def _quick_shards(variant, with_d2=True):
         for form in FORMS:
             sh.append({"kind": "d1", "variant": variant, "N": n, "form": form})
         sh.append({"kind": "direct", "variant": variant, "N": n})
+    for fn in ROT_AGG:
+        sh.append({"kind": "rot", "variant": variant, "N": 4, "fn": fn})
     if with_d2:
         sh += _d2_shards("quick", variant)
     for k in range(4):
@@ -1193,6 +1280,16 @@ def run_shard(shard, ctx):
     st, err = guard(bench.get, v, n)
     if st != "ok":
         ctx.violation("setup/cannot-build-the-track", {"kind": "setup", "variant": v, "N": n}, err)
+        return
+    if kind_ == "rot":
+        vals = rot_values(v)
+        for size in (2, 3, 4):
+            for vec in itertools.product(vals, repeat=size):
+                key = tuple(repr(x) for x in vec)
+                if key == min(key[r:] + key[:r] for r in range(size)):       # one representative per rotation class
+                    check_rotation(v, shard["fn"], list(vec), ctx)
+        ctx.sample({"aggregate": shard["fn"], "values": [repr(x) for x in vals], "sizes": [2, 3, 4],
+                    "calls": "fn{a} and Operator.<fn> on every vector and each of its rotations"})
         return
     if kind_ == "direct":
         for spec in direct_specs(v):
